@@ -306,6 +306,25 @@ func runC19(res *Result, tier string, seed int64, replay string) {
 					continue
 				}
 				cl, what := c19Judge(drv, with, without, rules, res, tag)
+				// the class may reach the element through mj-class, the tag's defaults or mj-all instead of its own css-class
+				if cl == "" && !ml {
+					for _, via := range []struct{ name, headX, attrs string }{
+						{"mj-class", `<mj-attributes><mj-class name="m9" css-class="ka"/></mj-attributes>`, `mj-class="m9"`},
+						{"tag-default", `<mj-attributes><` + tag + ` css-class="ka"/></mj-attributes>`, ``},
+						{"mj-all", `<mj-attributes><mj-all css-class="ka"/></mj-attributes>`, ``},
+					} {
+						w2 := legalContext(tag, via.attrs, "<mj-head>"+via.headX+block(rules, ml)+"</mj-head>")
+						o2 := legalContext(tag, via.attrs, "<mj-head>"+via.headX+"</mj-head>")
+						if w2 == "" {
+							continue
+						}
+						res.Case(fmt.Sprintf("%s/via-%s", tag, via.name), true)
+						if c2, wh2 := c19Judge(drv, w2, o2, rules, res, tag); c2 != "" {
+							cl, what, with, without = c2+"(class via "+via.name+")", wh2, w2, o2
+							break
+						}
+					}
+				}
 				res.Case(fmt.Sprintf("%s/%v", tag, ml), true)
 				res.Count("component=" + tag)
 				if cl != "" {
@@ -315,6 +334,21 @@ func runC19(res *Result, tier string, seed int64, replay string) {
 					}
 					res.Violate(Violation{Sig: sig, Kind: "cell", What: fmt.Sprintf("%s (multi-line block: %v): %s", tag, ml, what), Input: map[string]string{"source": with, "without": without, "signature": sig}})
 				}
+			}
+		}
+		// rules that target the classes the renderer itself puts on elements
+		{
+			gen := []inlineRule{{class: "mj-column-per-100", decls: []string{"outline:1px"}}, {class: "mj-outlook-group-fix", decls: []string{"zoom:1"}},
+				{class: "mj-column-per-50", decls: []string{"outline:2px"}}, {class: "mj-column-px-200", decls: []string{"outline:3px"}}}
+			body := `<mj-section><mj-column><mj-text>a</mj-text></mj-column></mj-section><mj-section><mj-column><mj-text>b</mj-text></mj-column><mj-column width="200px"><mj-text>c</mj-text></mj-column></mj-section>` +
+				`<mj-section><mj-group><mj-column><mj-text>d</mj-text></mj-column><mj-column><mj-text>e</mj-text></mj-column></mj-group></mj-section>`
+			with := "<mjml><mj-head>" + block(gen, true) + "</mj-head><mj-body>" + body + "</mj-body></mjml>"
+			without := "<mjml><mj-body>" + body + "</mj-body></mjml>"
+			cl, what := c19Judge(drv, with, without, gen, res, "generated-classes")
+			res.Case("generated-classes", true)
+			if cl != "" {
+				sig := "generated-classes|" + strings.SplitN(cl, "|", 2)[0]
+				res.Violate(Violation{Sig: sig, Kind: "cell", What: "rules on classes the renderer generates: " + what, Input: map[string]string{"source": with, "without": without, "signature": sig}})
 			}
 		}
 		// (2) author HTML and generated documents
